@@ -3,3 +3,4 @@ import NbdimeModel.DiffFormat
 import NbdimeModel.Patch
 import NbdimeModel.Lcs
 import NbdimeModel.Diff
+import NbdimeModel.WF
